@@ -143,7 +143,18 @@ func Memory(seed uint64) *Case {
 	p := &Profile{Name: "memory", MinSegs: 3, MaxSegs: 12, PoolMin: 3, PoolMax: 8,
 		WAlu: 3, WLoad: 4, WStore: 4, WLoop: 3, WLi: 1, WFwdBranch: r.Intn(2),
 		AddrRegsMax: 3, SubWord: r.Bool(), LoopMaxIter: []int{12, 24, 48, 90}[r.Intn(4)], BigWorkingSet: r.Chance(2, 3),
-		WEndRet: 2, WEndFall: 1, WEndJump: 1, MemSizes: []int{1024, 2048, 4096, 8192, 16384}, MaxSteps: 20000}
+		WEndRet: 2, WEndFall: 1, WEndJump: 1, MemSizes: []int{1024, 2048, 4096, 8192, 16384, 131072}, MaxSteps: 20000}
+	return Generate(seed, p)
+}
+
+// MemoryHigh is the Memory profile on a 128 KB image: half of the lines lie
+// above 64 KB (address bits the small images never set).
+func MemoryHigh(seed uint64) *Case {
+	r := rng.New(rng.Derive(seed, 0xC05, 0x1))
+	p := &Profile{Name: "memory-high", MinSegs: 3, MaxSegs: 12, PoolMin: 3, PoolMax: 8,
+		WAlu: 3, WLoad: 5, WStore: 3, WLoop: 2, WLi: 1, WFwdBranch: r.Intn(2),
+		AddrRegsMax: 3, SubWord: r.Bool(), LoopMaxIter: []int{4, 12, 24}[r.Intn(3)],
+		WEndRet: 2, WEndFall: 1, WEndJump: 1, MemSizes: []int{131072}, MaxSteps: 20000}
 	return Generate(seed, p)
 }
 
